@@ -172,15 +172,22 @@ where
         let stream = self.stream.take().expect("missing stream");
         let mut blocks = stream.into_inner();
 
-        blocks.seek(pos).await?;
+        let result = blocks.seek(pos).await;
 
         let mut stream = blocks.try_buffered(self.worker_count.get());
 
+        let result = match result {
+            Ok(_) => stream.try_next().await,
+            Err(e) => Err(e),
+        };
+
+        // The stream is put back even when the seek failed: the reader stays usable.
+        self.stream.replace(stream);
+
         // At the end of the stream, the current block is replaced with an empty block at the
         // given position.
-        let block = stream.try_next().await?.unwrap_or_default();
+        let block = result?.unwrap_or_default();
 
-        self.stream.replace(stream);
         self.set_block(block, pos)?;
 
         Ok(pos)
@@ -224,7 +231,14 @@ where
                 SeekState::Seek(mut blocks) => {
                     match Pin::new(&mut blocks).poll_seek(cx, pos) {
                         Poll::Ready(Ok(_)) => {}
-                        Poll::Ready(Err(e)) => return Poll::Ready(Err(e)),
+                        Poll::Ready(Err(e)) => {
+                            // The seek failed. The stream and the seek state are put back: the
+                            // reader stays usable.
+                            let stream = blocks.try_buffered(self.worker_count.get());
+                            self.stream.replace(stream);
+                            self.seek_state = Some(SeekState::Init);
+                            return Poll::Ready(Err(e));
+                        }
                         Poll::Pending => {
                             self.seek_state = Some(SeekState::Seek(blocks));
                             return Poll::Pending;
@@ -245,7 +259,11 @@ where
 
                     let block = match item {
                         Some(Ok(block)) => block,
-                        Some(Err(e)) => return Poll::Ready(Err(e)),
+                        Some(Err(e)) => {
+                            self.stream.replace(stream);
+                            self.seek_state = Some(SeekState::Init);
+                            return Poll::Ready(Err(e));
+                        }
                         None => Block::default(),
                     };
 
